@@ -829,12 +829,32 @@ static var Zip_Iter_Last(var self) {
   struct Tuple* iters = z->iters;
   size_t num = len(iters);
   if (num is 0) { return Terminal; }
+  
+  /* The last tuple is the one forward iteration reaches just before the
+  ** shortest input ends, so walk all inputs forwards in step to find it */
   for (size_t i = 0; i < num; i++) {
-    var last = iter_last(iters->items[i]);
-    if (last is Terminal) { return Terminal; }
-    values->items[i] = last;
+    var init = iter_init(iters->items[i]);
+    if (init is Terminal) { return Terminal; }
+    values->items[i] = init;
   }
-  return values;
+  
+  while (true) {
+    for (size_t i = 0; i < num; i++) {
+      var next = iter_next(iters->items[i], values->items[i]);
+      if (next is Terminal) {
+        /* Input i is at its end. The inputs before it have already been
+        ** advanced one step too far, the ones after it not yet */
+        values->items[i] = iter_last(iters->items[i]);
+        for (size_t j = 0; j < i; j++) {
+          values->items[j] = iter_prev(iters->items[j], values->items[j]);
+        }
+        return values;
+      }
+      values->items[i] = next;
+    }
+  }
+  
+  return Terminal;
 }
 
 static var Zip_Iter_Next(var self, var curr) {
